@@ -247,6 +247,41 @@ theorem Base.reply {c : AllocCfg} {s : St} {tid : Nat} {t : Thr} (hb : Base c s)
     · exact hb.nOk tid t ht
     · exact hb.nOk j u hu'
 
+/-- the request answers with an error: its thread is over, nothing is handed out, nothing else changes -/
+theorem Base.drop {c : AllocCfg} {s : St} {tid : Nat} {t : Thr} (hb : Base c s)
+    (ht : s.thr tid = some t) (hpc : t.pc = .reply) :
+    Base c { s with thr := upd s.thr tid (some { t with pc := .done }) } := by
+  have hres : t.reserved = true := (hb.link tid t ht).1 hpc
+  have hget : ∀ j u, upd s.thr tid (some ({ t with pc := .done } : Thr)) j = some u →
+      (j = tid ∧ u = { t with pc := .done }) ∨ (j ≠ tid ∧ s.thr j = some u) := by
+    intro j u hu
+    by_cases hj : j = tid
+    · subst hj; simp at hu; exact Or.inl ⟨rfl, hu.symm⟩
+    · rw [upd_other _ _ _ _ hj] at hu; exact Or.inr ⟨hj, hu⟩
+  refine ⟨hb.ctrLt, hb.startLt, hb.repLe, hb.repDisj, ?_, ?_, ?_, ?_, ?_⟩
+  · intro j u hu hr
+    rcases hget j u hu with ⟨_, rfl⟩ | ⟨_, hu'⟩
+    · exact hb.thrLe tid t ht hres
+    · exact hb.thrLe j u hu' hr
+  · intro j u hu hlu r hrm
+    rcases hget j u hu with ⟨_, rfl⟩ | ⟨_, hu'⟩
+    · exact absurd rfl hlu.2
+    · exact hb.thrRep j u hu' hlu r hrm
+  · intro i j ti tj hij hi hj hli hlj
+    rcases hget i ti hi with ⟨_, rfl⟩ | ⟨_, hi'⟩
+    · exact absurd rfl hli.2
+    · rcases hget j tj hj with ⟨_, rfl⟩ | ⟨_, hj'⟩
+      · exact absurd rfl hlj.2
+      · exact hb.thrThr i j ti tj hij hi' hj' hli hlj
+  · intro j u hu
+    rcases hget j u hu with ⟨_, rfl⟩ | ⟨_, hu'⟩
+    · exact ⟨fun h => by simp at h, fun _ _ => hres⟩
+    · exact hb.link j u hu'
+  · intro j u hu
+    rcases hget j u hu with ⟨_, rfl⟩ | ⟨_, hu'⟩
+    · exact hb.nOk tid t ht
+    · exact hb.nOk j u hu'
+
 /-! ### the checkpoint invariant (good configuration) -/
 
 def critical : PC → Bool
@@ -278,7 +313,7 @@ structure Cov (s : St) : Prop where
   muThr : ∀ tid, s.mu = some tid → s.thr tid ≠ none
   rdOk : ∀ tid t, s.thr tid = some t → ∀ k, hasRead t.pc k = true →
     s.ck k ≤ t.rd k ∧ t.rd k ≤ s.ctr k ∧ (t.kind = k → t.last ≤ t.rd k)
-  savedOk : ∀ tid t, s.thr tid = some t → saved t.pc = true → t.last ≤ s.ck t.kind
+  savedOk : ∀ tid t, s.thr tid = some t → saved t.pc = true → t.failSave = false → t.last ≤ s.ck t.kind
 
 /-- A step of thread `tid` that leaves the checkpoint and the reply log alone, does not lower a
 counter, and keeps "who is in the critical section" consistent. -/
@@ -290,7 +325,7 @@ theorem Cov.trans {s s' : St} {tid : Nat} {t t' : Thr} (hc : Cov s)
     (hmu' : critical t'.pc = true ↔ s'.mu = some tid)
     (hrd : ∀ k, hasRead t'.pc k = true →
       s.ck k ≤ t'.rd k ∧ t'.rd k ≤ s'.ctr k ∧ (t'.kind = k → t'.last ≤ t'.rd k))
-    (hsv : saved t'.pc = true → t'.last ≤ s.ck t'.kind) :
+    (hsv : saved t'.pc = true → t'.failSave = false → t'.last ≤ s.ck t'.kind) :
     Cov s' := by
   have hget : ∀ j u, s'.thr j = some u → (j = tid ∧ u = t') ∨ (j ≠ tid ∧ s.thr j = some u) := by
     intro j u hu
@@ -316,15 +351,15 @@ theorem Cov.trans {s s' : St} {tid : Nat} {t t' : Thr} (hc : Cov s)
     · exact hrd k hk
     · obtain ⟨a, b, d⟩ := hc.rdOk j u hu' k hk
       exact ⟨a, Nat.le_trans b (hctr k), d⟩
-  · intro j u hu hs
+  · intro j u hu hs hf
     rw [hck]
     rcases hget j u hu with ⟨rfl, rfl⟩ | ⟨hj, hu'⟩
-    · exact hsv hs
-    · exact hc.savedOk j u hu' hs
+    · exact hsv hs hf
+    · exact hc.savedOk j u hu' hs hf
 
 /-- the save step: the mutex holder publishes the values it loaded -/
 theorem Cov.save {s : St} {tid : Nat} {t : Thr} {pc' : PC} (hc : Cov s)
-    (ht : s.thr tid = some t) (hpc : t.pc = .save) (hpc' : pc' = .unlock) :
+    (ht : s.thr tid = some t) (hpc : t.pc = .save) (hpc' : pc' = .unlock) (_hok : t.failSave = false) :
     Cov { s with ck := t.rd, thr := upd s.thr tid (some { t with pc := pc' }) } := by
   subst hpc'
   have hmu : s.mu = some tid := (hc.crit tid t ht).mp (by simp [hpc, critical])
@@ -356,13 +391,13 @@ theorem Cov.save {s : St} {tid : Nat} {t : Thr} {pc' : PC} (hc : Cov s)
       have := (hc.crit j u hu').mp (hasRead_critical _ _ hk)
       rw [hmu] at this
       exact absurd (Option.some.inj this).symm hj
-  · intro j u hu hs
+  · intro j u hu hs hf
     rcases hget j u hu with ⟨rfl, rfl⟩ | ⟨hj, hu'⟩
     · exact (hrdk t.kind).2.2 rfl
-    · exact Nat.le_trans (hc.savedOk j u hu' hs) (hrdk u.kind).1
+    · exact Nat.le_trans (hc.savedOk j u hu' hs hf) (hrdk u.kind).1
 
 theorem Cov.reply {s : St} {tid : Nat} {t : Thr} (hc : Cov s)
-    (ht : s.thr tid = some t) (hpc : t.pc = .reply) :
+    (ht : s.thr tid = some t) (hpc : t.pc = .reply) (hok : t.failSave = false) :
     Cov { s with replied := t.rng :: s.replied, thr := upd s.thr tid (some { t with pc := .done }) } := by
   have hnm : s.mu ≠ some tid := by
     intro h; have := (hc.crit tid t ht).mpr h; simp [hpc, critical] at this
@@ -375,7 +410,7 @@ theorem Cov.reply {s : St} {tid : Nat} {t : Thr} (hc : Cov s)
   refine ⟨hc.ckLe, ?_, ?_, ?_, ?_, ?_⟩
   · intro r hr
     rcases List.mem_cons.mp hr with rfl | hr
-    · exact hc.savedOk tid t ht (by simp [hpc, saved])
+    · exact hc.savedOk tid t ht (by simp [hpc, saved]) hok
     · exact hc.repCk r hr
   · intro j u hu
     rcases hget j u hu with ⟨rfl, rfl⟩ | ⟨hj, hu'⟩
@@ -390,10 +425,10 @@ theorem Cov.reply {s : St} {tid : Nat} {t : Thr} (hc : Cov s)
     rcases hget j u hu with ⟨rfl, rfl⟩ | ⟨hj, hu'⟩
     · simp [hasRead] at hk
     · exact hc.rdOk j u hu' k hk
-  · intro j u hu hs
+  · intro j u hu hs hf
     rcases hget j u hu with ⟨rfl, rfl⟩ | ⟨hj, hu'⟩
     · simp [saved] at hs
-    · exact hc.savedOk j u hu' hs
+    · exact hc.savedOk j u hu' hs hf
 
 theorem Cov.spawn {s : St} (hc : Cov s) (tid : Nat) (k : Kind) (n : Nat) (hfree : s.thr tid = none) :
     Cov { s with thr := upd s.thr tid (some { kind := k, n := n, pc := .reserve }) } := by
@@ -418,10 +453,10 @@ theorem Cov.spawn {s : St} (hc : Cov s) (tid : Nat) (k : Kind) (n : Nat) (hfree 
     rcases hget j u hu with ⟨rfl, rfl⟩ | ⟨hj, hu'⟩
     · simp [hasRead] at hk
     · exact hc.rdOk j u hu' k' hk
-  · intro j u hu hs
+  · intro j u hu hs hf
     rcases hget j u hu with ⟨rfl, rfl⟩ | ⟨hj, hu'⟩
     · simp [saved] at hs
-    · exact hc.savedOk j u hu' hs
+    · exact hc.savedOk j u hu' hs hf
 
 /-- `ResolveAllocatorStarts` + `NewAllocator`: the counter after a restart is at or above the
 checkpoint and below MaxUint64. -/
